@@ -1053,3 +1053,348 @@ def extreme_trees_check(chk, drv, want_identity):
             chk.fail('not-wellformed:extreme-tree', {'extreme': name}, '%s' % res); continue
         if want_identity and X.sort_attrs(res) != X.canon(w):
             chk.fail('tree-changed:extreme', {'extreme': name}, str(X.first_diff(X.sort_attrs(res), X.canon(w)))[:300])
+
+
+# ------------------------------------------------------------------ round 7: bulk oracle over ALL code points, block boundaries, reference look-alikes
+import re as _re
+_NOT_XML_CHAR = _re.compile(u'[^\t\n\r\x20-\ud7ff\ue000-\ufffd\U00010000-\U0010ffff]')
+
+
+def repl_illegal_fast(s):
+    """X.repl_illegal for long strings: the complement of the XML 1.0 Char production, written down once more from the
+    recommendation (cross-checked against X.repl_illegal on every code point in all_codepoints_oracle)"""
+    return _NOT_XML_CHAR.sub(u'\ufffd', s)
+
+
+def _wrap(fs, ctx, s):
+    real = fs[ctx](s)
+    return real, PROLOGUE + (u'<a b=' + real + u'/>' if ctx == 'attr' else u'<a>' + real + u'</a>')
+
+
+def _value(ctx, res):
+    """the attribute value / the merged character data of the one-element document `res` (expat infoset)"""
+    return res[3][0][2] if ctx == 'attr' else u''.join(k[1] for k in res[4])
+
+
+def one_string_oracle(chk, fs, ctx, s, want_identity, case=None):
+    """the property on ONE string in one position, through the real encoder and expat: well-formed (C01) and, with want_identity,
+    character-identical except one U+FFFD per character XML 1.0 cannot represent (C02).  Returns None when it holds, else the
+    verdict of chk.fail.  The only tolerated class is the known finding (a discouraged code point arriving as U+FFFD)."""
+    real, doc = _wrap(fs, ctx, s)
+    ok, res = wellformed(doc)
+    case = case or {'context': ctx, 's': enc_str(s)}
+    if not ok:
+        return chk.fail('not-wellformed:' + ctx, case, '%s: %r ... %r (%d characters in, %d out)' % (res, doc[39:99], doc[-60:], len(s), len(real)))
+    if want_identity:
+        exp = repl_illegal_fast(s); got = _value(ctx, res)
+        if got != exp:
+            k = next((i for i in range(min(len(got), len(exp))) if got[i] != exp[i]), min(len(got), len(exp)))
+            sig = 'discouraged-codepoint' if (any(X.is_discouraged(c) for c in s) and got == hu_like(s)) else 'value-changed:' + ctx
+            return chk.fail(sig, case, 'parsed back differently at offset %d of %d: got %r, expected %r' % (k, len(exp), got[max(0, k - 8):k + 8], exp[max(0, k - 8):k + 8]))
+    return None
+
+
+def all_codepoints_oracle(chk, fs, want_identity):
+    """ORACLE over the complete finite domain: every one of the 1,114,112 code points through the real writer in the three
+    positions (17 strings of 65,536 consecutive code points each, per position) and back through expat.  Expected, from the
+    property text alone: the stream is well-formed; every XML 1.0 Char (#x9 | #xA | #xD | [#x20-#xD7FF] | [#xE000-#xFFFD] |
+    [#x10000-#x10FFFF]) arrives as itself, everything else as one U+FFFD.  A chunk that disagrees is narrowed to single code
+    points, each confirmed on its own (`a<c>b`); the known finding class keeps its signature, nothing else is tolerated."""
+    CH = 0x10000
+    for ctx in ('text', 'attr', 'cdata'):
+        reported = 0
+        for lo in range(0, 0x110000, CH):
+            s = u''.join(map(chr, range(lo, lo + CH)))
+            real, doc = _wrap(fs, ctx, s)
+            ok, res = wellformed(doc)
+            chk.case(('all-codepoints', ctx, lo)); chk.count('oracle_codepoints_' + ctx, CH)
+            exp = X.repl_illegal(s)
+            if exp != repl_illegal_fast(s):
+                raise common.InfraError('the two transcriptions of the XML Char production disagree in %x..%x' % (lo, lo + CH - 1))
+            got = _value(ctx, res) if ok else None
+            if ok and (not want_identity or got == exp):
+                continue
+            if ok and len(got) == len(exp):
+                suspects = [i for i in range(CH) if got[i] != exp[i]]
+            else:
+                suspects = list(range(CH))
+            confirmed = 0
+            for i in suspects:
+                if reported >= 40:
+                    break
+                one = u'a' + s[i] + u'b'
+                v = one_string_oracle(chk, fs, ctx, one, want_identity)
+                if v is not None:
+                    confirmed += 1
+                    if v == 'violation':
+                        reported += 1
+                    else:
+                        chk.count('oracle_codepoints_known_finding_' + ctx)
+            if not confirmed and reported < 40:
+                # only wrong in the company of its neighbours: a window around the first suspect, else the whole chunk
+                i = suspects[0]
+                for w in (s[max(0, i - 2):i + 3], s[max(0, i - 16):i + 17], s):
+                    if one_string_oracle(chk, fs, ctx, w, want_identity) is not None:
+                        reported += 1; break
+
+
+BOUNDARY_TOKENS = [u']]>', u']]]>', u']>', u'&', u'<', u'>', u'\r', u'\r\n', u'\n', u'\t', u'"', u"'", u'"\'', u' ',
+                   u'\ud800', u'\udc00', u'\ud83d\ude00', u'\U0001F600', u'\x00', u'\x01', u'\x0c', u'\ufffe', u'\uffff', u'\ufffd',
+                   u'\x85', u'\u2028', u'\xe9', u'\u20ac', u'&amp;', u'&#13;', u'&#x41;', u'<![CDATA[', u'-->', u'?>']
+
+
+BOUNDARY_TOKENS_THOROUGH_ONLY = [u']>', u'\xa0', u'\udc00', u'\x0c', u'\uffff', u'?>', u'\n', u'>', u'-->', u'\u20ac', u'&#x41;']
+
+
+def boundary_positions(chk):
+    """the block sizes a writer may work in: every power of two from 1 KiB to 128 KiB (thorough: also 192 KiB and 256 KiB)"""
+    pos = [1 << k for k in range(10, 18)]
+    if chk.tier != 'quick':
+        pos += [3 << 16, 1 << 18]
+    return pos
+
+
+def boundary_string(tok, d, positions, fill=u'a'):
+    """filler with `tok` starting at B+d for every B in positions, three more characters at the end"""
+    out = []; pos = 0
+    for B in positions:
+        start = B + d
+        if start < pos:
+            continue
+        out.append(fill * (start - pos)); out.append(tok); pos = start + len(tok)
+    out.append(u'b' * 3)
+    return u''.join(out)
+
+
+def boundary_cases(chk):
+    """(token, offset, string): the token starts at offset d of every block boundary, d from -(len+1) to +1, so that it lies
+    before, across (every split) and after the boundary"""
+    positions = boundary_positions(chk)
+    fills = [u'a'] if chk.tier == 'quick' else [u'a', u'\xe9']
+    toks = BOUNDARY_TOKENS if chk.tier != 'quick' else [t for t in BOUNDARY_TOKENS if t not in BOUNDARY_TOKENS_THOROUGH_ONLY]
+    for tok in toks:
+        for d in range(-len(tok) - 1, 2):
+            for fill in fills:
+                if len(fill) > 1:
+                    n = positions[-1] + 8
+                    base = (fill * (n // len(fill) + 1))[:n]
+                    s = base
+                    for B in reversed(positions):
+                        s = s[:B + d] + tok + s[B + d + len(tok):]
+                    yield tok, d, fill, s
+                else:
+                    yield tok, d, fill, boundary_string(tok, d, positions, fill)
+
+
+def boundary_strings_check(chk, drv, fs, want_identity):
+    """LONG strings (text, CDATA, attribute value) in which every token the encoders treat specially - `]]>`, `&`, `<`, CR, quotes,
+    surrogates, filtered characters, the encoders' own output tokens - stands AT and AROUND the block boundaries 2^k (1 KiB ..
+    128 KiB; every split of the token across the boundary).  An encoder that converts or writes its data a block at a time, or
+    that looks at a bounded window, must not treat a token differently because of where it lies.  Oracle: expat accepts the
+    stream (C01) and gives back the string (C02).  Correspondence: the model on the same strings (quick: the 8 KiB prefix of
+    every case, and every 37th case at full length; thorough: every 11th).  A failing case is reduced to ONE boundary (the shortest failing string)."""
+    positions = boundary_positions(chk)
+    cases = list(boundary_cases(chk))
+    short_pos = [p for p in positions if p <= 8192]
+    lines = []; metas = []
+    for j, (tok, d, fill, s) in enumerate(cases):
+        for ci, ctx in enumerate(('text', 'attr', 'cdata')):
+            chk.case(('boundary', ctx, tok, d, fill)); chk.count('boundary_' + ctx)
+            real, doc = _wrap(fs, ctx, s)
+            ok, res = wellformed(doc)
+            bad = (not ok) or (want_identity and _value(ctx, res) != repl_illegal_fast(s))
+            if bad:
+                # reduce to one boundary: the shortest string of the class that still fails
+                for B in positions:
+                    s1 = boundary_string(tok, d, [B], fill[:1])
+                    if one_string_oracle(chk, fs, ctx, s1, want_identity) is not None:
+                        break
+                else:
+                    one_string_oracle(chk, fs, ctx, s, want_identity)
+            # correspondence
+            full = (j * 3 + ci) % (37 if chk.tier == 'quick' else 11) == 0
+            sm = s if full else s[:short_pos[-1] + 8]
+            lines.append('%s %s' % (ctx, enc_str(sm))); metas.append((ctx, tok, d, sm, real if full else None))
+    ans = drv.batch(lines)
+    for (ctx, tok, d, sm, real), a in zip(metas, ans):
+        if real is None:
+            real = fs[ctx](sm)
+        chk.corr(); chk.count('boundary_model_' + ctx)
+        if a != 'ok ' + enc_str(real):
+            m = dec_str(a[3:]) if a.startswith('ok ') else a
+            k = next((i for i in range(min(len(m), len(real))) if m[i] != real[i]), min(len(m), len(real)))
+            chk.corr_diff({'context': ctx, 'token': enc_str(tok), 'offset': d, 'length': len(sm)}, real[max(0, k - 30):k + 30], m[max(0, k - 30):k + 30],
+                          'encoder output on a long string with the token at 2^k%+d, first difference at %d' % (d, k))
+
+
+def boundary_trees_check(chk, drv, want_identity):
+    """the same strings inside real elements (text node + CDATA node + attribute value of one element) through Element.toXml, and
+    inside a document through xml(), contentxml() and the content.xml of save()"""
+    T = u'urn:oasis:names:tc:opendocument:xmlns:text:1.0'; F = u'urn:example:foreign'
+    positions = boundary_positions(chk)
+    cases = [c for c in boundary_cases(chk) if c[2] == u'a']
+    if chk.tier != 'quick':
+        cases = [c for i, c in enumerate(cases) if c[1] in (-2, -1) or i % 3 == 0]
+    else:
+        cases = [c for i, c in enumerate(cases) if (c[0] in (u']]>', u'\r', u'&', u'\ud83d\ude00', u'\x01') and c[1] in (-2, -1)) or i % 11 == 0]
+    for tok, d, fill, s in cases:
+        tr = ('E', T, u'p', [(F, u'custom', s)], [('T', s), ('E', T, u'span', [], [('C', s)])])
+        e = X.build(tr); w = X.walk(e)
+        doc = PROLOGUE + X.to_xml(e)
+        ok, res = wellformed(doc)
+        chk.case(('boundary-tree', tok, d)); chk.count('boundary_trees')
+        if ok and (not want_identity or X.sort_attrs(res) == X.canon(w, repl=repl_illegal_fast)):
+            continue
+        for B in positions:
+            s1 = boundary_string(tok, d, [B])
+            for small in (('E', T, u'p', [], [('T', s1)]), ('E', T, u'p', [], [('C', s1)]), ('E', T, u'p', [(F, u'custom', s1)], [])):
+                e1 = X.build(small); w1 = X.walk(e1)
+                ok1, res1 = wellformed(PROLOGUE + X.to_xml(e1))
+                if not ok1:
+                    chk.fail('not-wellformed:tree', {'tree': small}, '%s (token %r at %d%+d of a string of %d characters)' % (res1, tok, B, d, len(s1))); break
+                if want_identity and X.sort_attrs(res1) != X.canon(w1):
+                    sig = 'discouraged-codepoint' if (X.has_discouraged(w1) and X.canon(w1, repl=hu_like) == X.sort_attrs(res1)) else 'tree-changed'
+                    chk.fail(sig, {'tree': small}, str(X.first_diff(X.sort_attrs(res1), X.canon(w1)))[:300]); break
+            else:
+                continue
+            break
+        else:
+            if not ok:
+                chk.fail('not-wellformed:tree', {'tree': tr}, '%s' % res)
+            else:
+                chk.fail('tree-changed', {'tree': tr}, str(X.first_diff(X.sort_attrs(res), X.canon(w)))[:300])
+    # documents: one per token (the offset that puts the last character of the token behind the boundary)
+    docs = [(tok, -len(tok) + 1 if len(tok) > 1 else -1) for tok in BOUNDARY_TOKENS]
+    if chk.tier == 'quick':
+        docs = docs[::7] + [(u']]>', -2), (u']]>', -1), (u'\r\n', -1), (u'\ud83d\ude00', -1)]
+    for tok, d in docs:
+        s = boundary_string(tok, d, positions)
+        string_document_one(chk, s, want_identity, light=True)
+
+
+def string_document(s):
+    """a text document that holds `s` wherever a caller can put a string: metadata (element text, attribute value), paragraph
+    text, span text, CDATA section, attribute of a foreign element, link target"""
+    from odf.opendocument import OpenDocumentText
+    from odf import text, dc, meta
+    from odf.element import Element
+    d = OpenDocumentText()
+    d.meta.addElement(dc.Title(text=s))
+    d.meta.addElement(meta.UserDefined(name=s, text=s))
+    p = text.P(text=s)
+    p.addElement(text.Span(text=s))
+    fe = Element(qname=(u'urn:example:foreign', u'thing'), check_grammar=False)
+    fe.setAttrNS(u'urn:example:foreign', u'attr', s)
+    p.addElement(fe, check_grammar=False)
+    p.addElement(text.A(href=s, text=s))
+    p.appendChild(d.createCDATASection(s))
+    d.text.addElement(p)
+    return d
+
+
+def string_document_one(chk, s, want_identity, light=False):
+    """every rendering of string_document(s) parsed by expat (C01); xml() and the body of content.xml compared with the tree (C02)"""
+    case = {'string_document': enc_str(s)}
+    chk.case(('string-document', s if len(s) < 100 else (len(s), enc_str(s[:8]), enc_str(s[-40:])))); chk.count('string_documents')
+    try:
+        d = string_document(s)
+    except Exception as e:
+        chk.notes.append('string_document: %r' % (e,)); chk.count('string_documents_not_built'); return
+    try:
+        if light:
+            rs = {'xml()': d.xml(), 'contentxml()': d.contentxml(), 'metaxml()': d.metaxml()}
+            buf = io.BytesIO(); d.save(buf); z = zipfile.ZipFile(io.BytesIO(buf.getvalue()))
+            for n in ('content.xml', 'meta.xml', 'styles.xml'):
+                rs['zip:' + n] = z.read(n)
+        else:
+            rs = renderings(d)
+    except UnicodeEncodeError as e:
+        chk.fail('not-encodable:document', case, 'rendering raised %r' % (e,)); return
+    for name, data in sorted(rs.items()):
+        chk.count('string_document_renderings')
+        if isinstance(data, str):
+            try:
+                data = data.encode('utf-8')
+            except UnicodeEncodeError as e:
+                chk.fail('not-encodable:' + name, dict(case, rendering=name), repr(e)); continue
+        try:
+            tree = X.expat_parse(data)
+        except xml.parsers.expat.ExpatError as e:
+            chk.fail('not-wellformed:' + name, dict(case, rendering=name), '%s (string of %d characters ending %r)' % (e, len(s), s[-12:])); continue
+        if want_identity and name == 'xml()':
+            exp = X.canon(X.walk(d.topnode)); got = X.sort_attrs(tree)
+            if got != exp:
+                sig = 'discouraged-codepoint' if X.canon(X.walk(d.topnode), repl=hu_like) == got else 'tree-changed:' + name
+                chk.fail(sig, dict(case, rendering=name), str(X.first_diff(got, exp))[:300])
+        if want_identity and name in ('contentxml()', 'zip:content.xml'):
+            body = [k for k in tree[4] if k[2] == 'body']
+            exp = X.canon(X.walk(d.body))
+            if not body or X.sort_attrs(body[0]) != exp:
+                sig = 'discouraged-codepoint' if body and X.canon(X.walk(d.body), repl=hu_like) == X.sort_attrs(body[0]) else 'tree-changed:' + name
+                chk.fail(sig, dict(case, rendering=name), str(X.first_diff(X.sort_attrs(body[0]), exp))[:300] if body else 'no body')
+        if want_identity and name in ('metaxml()', 'zip:meta.xml'):
+            sec = [k for k in tree[4] if k[2] == 'meta']
+            exp = X.canon(X.walk(d.meta))
+            if not sec or X.sort_attrs(sec[0]) != exp:
+                sig = 'discouraged-codepoint' if sec and X.canon(X.walk(d.meta), repl=hu_like) == X.sort_attrs(sec[0]) else 'tree-changed:' + name
+                chk.fail(sig, dict(case, rendering=name), str(X.first_diff(X.sort_attrs(sec[0]), exp))[:300] if sec else 'no office:meta')
+
+
+def decimal_zeros():
+    """the digit ZERO of every script Unicode knows (category Nd, value 0), ASCII first"""
+    import unicodedata
+    return [chr(c) for c in range(0x30, 0x110000) if unicodedata.category(chr(c)) == 'Nd' and unicodedata.decimal(chr(c), None) == 0]
+
+
+REF_NUMBERS = [0, 1, 9, 10, 13, 32, 38, 60, 65, 128, 159, 8364, 55296, 65534, 65536, 1114111, 1114112, 99999999999]
+REF_NAMES = [u'amp', u'lt', u'gt', u'quot', u'apos', u'nbsp', u'euro', u'foo', u'a.b-c_d', u'\xe9', u'\u0661', u':a', u'a:b', u'_', u'#', u'']
+
+
+def lookalike_strings(chk):
+    """strings that LOOK LIKE XML references: `&#<decimal digits of any script>;`, `&#x<hex>;` (also fullwidth / other-script
+    digits, upper-case X), `&name;`, and the truncated forms.  None of them is a reference in the tree: the `&` is a character."""
+    out = []
+    def scr(n, z):
+        return u''.join(chr(ord(z) + int(c)) for c in str(n))
+    zeros = decimal_zeros()
+    for z in zeros:
+        refs = [u'&#%s;' % scr(n, z) for n in REF_NUMBERS]
+        refs += [u'&#6%s;' % scr(5, z), u'&#%s5;' % scr(6, z), u'&#x%s;' % scr(41, z), u'&#X%s;' % scr(41, z), u'&#%s' % scr(65, z), u'&#x2%sAC;' % scr(0, z)]
+        out.extend(refs)
+        out.append(u' '.join(refs))
+        out.append(u'x' + u''.join(refs) + u'y')
+    for z in zeros[:1]:
+        out += [u'&#x%x;' % n for n in REF_NUMBERS] + [u'&#X%X;' % n for n in REF_NUMBERS] + [u'&#x0000%x;' % n for n in REF_NUMBERS] + [u'&#000%d;' % n for n in REF_NUMBERS]
+    # hexadecimal digits of other alphabets (fullwidth A-F / a-f), characters that are numeric but not decimal digits
+    out += [u'&#x\uff14\uff11;', u'&#x\uff21\uff22;', u'&#x\uff41\uff46;', u'&#xA\uff10;', u'&#\xb2;', u'&#\u2460;', u'&#\u2167;', u'&#\u0bf0;', u'&#\u4e94;',
+            u'&#+65;', u'&#-65;', u'&# 65;', u'&#65 ;', u'&#6_5;', u'&#0x41;', u'&#x;', u'&#;', u'&#', u'&#x', u'&', u'&;', u'&&amp;;', u'&#38;#38;', u'&amp;#65;', u'&#x26;lt;']
+    out += [u'&%s;' % n for n in REF_NAMES] + [u'&%s' % n for n in REF_NAMES] + [u'a&%s;b&%s;' % (n, n) for n in REF_NAMES]
+    seen = set(); res = []
+    for s in out:
+        if s not in seen:
+            seen.add(s); res.append(s)
+    return res
+
+
+def reference_lookalikes_check(chk, drv, fs, want_identity):
+    """reference look-alikes as text, attribute value and CDATA: model vs code (bytes) and the oracle (expat accepts the stream;
+    with want_identity the `&...;` arrives as the characters it is made of, not as what it would denote); then inside documents
+    (metadata, text, attribute values, link targets, CDATA) through every rendering"""
+    cases = lookalike_strings(chk)
+    for ctx in ('text', 'attr', 'cdata'):
+        ans = drv.batch('%s %s' % (ctx, enc_str(s)) for s in cases)
+        for s, a in zip(cases, ans):
+            real = fs[ctx](s)
+            chk.corr()
+            if a != 'ok ' + enc_str(real):
+                chk.corr_diff({'context': ctx, 's': enc_str(s)}, real, dec_str(a[3:]) if a.startswith('ok ') else a, 'encoder output on a reference look-alike')
+            chk.case(('lookalike', ctx, s)); chk.count('lookalike_' + ctx)
+            one_string_oracle(chk, fs, ctx, s, want_identity)
+    zeros = decimal_zeros()
+    pick = zeros if chk.tier != 'quick' else [zeros[0]] + chk.rng.sample(zeros[1:], min(9, len(zeros) - 1))
+    def scr(n, z):
+        return u''.join(chr(ord(z) + int(c)) for c in str(n))
+    for z in pick:
+        string_document_one(chk, u'&#%s; &#x%s; &#%s;' % (scr(65, z), scr(41, z), scr(8364, z)), want_identity, light=chk.tier == 'quick')
+    for s in (u'&nbsp; &amp; &#65; &#x41; &foo', u'&#\uff16\uff15;'):
+        string_document_one(chk, s, want_identity)
